@@ -252,7 +252,7 @@ func runC15(c *core.Ctx, o Options) {
 				return
 			}
 			fa, ok := st.Addr.(*ssa.FieldAddr)
-			if !ok || an.FieldOf(fa) == nil || an.FieldOf(fa).Name() != "CloseTimeout" || !an.TypeIs(fa.X.Type(), "session", "LogonSettings") {
+			if !ok || an.FieldOf(fa) == nil || an.FieldName(an.FieldOf(fa)) != "CloseTimeout" || !an.TypeIs(fa.X.Type(), "session", "LogonSettings") {
 				return
 			}
 			nCT++
